@@ -255,7 +255,7 @@ func init() {
 		Plan: func(tier string) fw.Plan {
 			nRand := 400
 			if tier == "thorough" {
-				nRand = 12000
+				nRand = 150000
 			}
 			return fw.Plan{
 				Level: "exploration",
